@@ -26,7 +26,9 @@ SIZES = [(5, 14), (8, 24), (12, 40), (24, 80), (4, 12), (24, 30)]
 CORPUS = [(b"ia\nb\nc\x1bggdGsx\x1b", (6, 24)), (b"ia\nb\nc\x1bggdGcwx\x1b", (6, 24)), (b"ia\nb\nc\x1bggdGCx\x1b", (8, 24)),
           # a change that begins above the window (vi_drawfix)
           (b"i1\n2\n3\n4\n5\n6\n7\n8\n9\x1bgg\x05\x05\x05:1,5d\nu:1,2s/^/x/\nu", (5, 14)),
-          (b"i1\n2\n3\n4\n5\n6\n7\n8\n9\x1bG:1,3d\n:u\n", (4, 12))]
+          (b"i1\n2\n3\n4\n5\n6\n7\n8\n9\x1bG:1,3d\n:u\n", (4, 12)),
+          # an insert whose autoindent scrolls the window sideways and Esc brings it back
+          (b"i\t\tx } y\n\tind x\n\x1b", (4, 12)), (b"i\t\tx } y\n\tind x\n\x1bkk", (4, 12))]
 
 
 def session(ctx, sc, k):
